@@ -54,6 +54,9 @@ const DETERMINISTIC_RANDOM_STATE: RandomState = unsafe { std::mem::transmute((0u
 #[derive(Clone, Debug, Serialize, Deserialize)]
 #[serde(bound(serialize = "K: Eq + Serialize, V: Serialize"))]
 #[serde(bound(deserialize = "K: Eq + Hash + Deserialize<'de>, V: Deserialize<'de>"))]
+// Deserialize the std map and convert it: std's `Deserialize` impl builds its map with `S::default()`,
+// i.e. random keys, and the conversion is what puts the entries under the fixed `RandomState`.
+#[serde(from = "StdHashMap<K, V, RandomState>")]
 pub struct HashMap<K, V>(StdHashMap<K, V, RandomState>);
 
 impl<K, V> HashMap<K, V> {
@@ -181,6 +184,8 @@ impl<K: UnwindSafe, V: UnwindSafe> UnwindSafe for HashMap<K, V> {}
 #[derive(Clone, Debug, Serialize, Deserialize)]
 #[serde(bound(serialize = "T: Eq + Serialize"))]
 #[serde(bound(deserialize = "T: Eq + Hash + Deserialize<'de>"))]
+// See `HashMap`: convert from the std set so that the result is keyed with the fixed `RandomState`.
+#[serde(from = "StdHashSet<T, RandomState>")]
 pub struct HashSet<T>(StdHashSet<T, RandomState>);
 
 impl<T> HashSet<T> {
